@@ -199,7 +199,54 @@ theorem ret_ok {s s' : State} {t : Nat} (h : ret s t = .ok s') :
   · rename_i hc
     injection h with h
     have := not_or.mp hc
-    exact ⟨by simpa using this.1, this.2, h.symm⟩
+    exact ⟨by simpa using this.1, (not_or.mp this.2).1, h.symm⟩
+
+theorem ret_proxy {s s' : State} {t : Nat} (h : ret s t = .ok s') : (s.thr t).proxy = none := by
+  unfold ret at h
+  split at h
+  · cases h
+  · rename_i hc
+    have := (not_or.mp (not_or.mp hc).2).2
+    simpa using this
+
+theorem startUnstored_ok {s s' : State} {t : Nat} (h : startUnstored s t = .ok s') :
+    ∃ hd, (s.thr t).phase = .created ∧ (s.thr t).pend = none ∧ (s.thr t).handle = some hd ∧ s.spin = none ∧
+      valueOf s t 0 = 0 ∧ (s.hdl hd).freed = false ∧
+      s' = { s with hdl := upd s.hdl hd { s.hdl hd with orphan := true }
+                    thr := upd s.thr t { s.thr t with phase := .running, handle := none, proxy := some hd } } := by
+  unfold startUnstored at h
+  split at h
+  · cases h
+  · rename_i hg
+    split at h
+    · cases h
+    · rename_i hd hh
+      split at h
+      · cases h
+      · rename_i hs
+        split at h
+        · cases h
+        · rename_i hv
+          split at h
+          · cases h
+          · rename_i hf
+            injection h with h
+            have hg' := not_or.mp hg
+            exact ⟨hd, by simpa using hg'.1, by simpa using hg'.2, hh, hs, by simpa using hv, by simpa using hf, h.symm⟩
+
+theorem retUnstored_ok {s s' : State} {t h : Nat} (hs : retUnstored s t h = .ok s') :
+    canAct s t ∧ (s.thr t).proxy = some h ∧ ∃ s1, unrefCore s h true = .ok s1 ∧
+      s' = { s1 with thr := upd s1.thr t { s1.thr t with phase := .finished } } := by
+  unfold retUnstored at hs
+  split at hs
+  · cases hs
+  · rename_i hg
+    have hg' := not_or.mp hg
+    split at hs
+    · cases hs
+    · rename_i s1 hu
+      injection hs with hs
+      exact ⟨by simpa using hg'.1, by simpa using hg'.2, s1, hu, hs.symm⟩
 
 /-- the handle record after the decrement of `p_uthread_unref` -/
 def decd (x : Handle) (own : Bool) : Handle :=
@@ -398,6 +445,20 @@ theorem setLocal_ok {s s' : State} {t : Nat} {k : Nat} {v : Nat} (h : setLocal s
     ∃ n, canAct s t ∧ k ≠ 0 ∧ k < s.nK ∧ (s.key k).wrapperFreed = false ∧ (s.key k).published = some n ∧
     s' = { s with dtorLog := s.dtorLog ++ notifyOld s t k n setCallsNotifier, tls := upd2 s.tls t n v } := by
   unfold setLocal at h
+  split at h
+  · cases h
+  · rename_i hg
+    simp only [not_or, Decidable.not_not] at hg
+    split at h
+    · cases h
+    · rename_i n hr; injection h with h
+      obtain ⟨r1, r2⟩ := resolve_ok hr
+      exact ⟨n, hg.1, hg.2.1, hg.2.2, r1, r2, h.symm⟩
+
+theorem storeFail_ok {s s' : State} {t : Nat} {k : Nat} {r : Bool} (h : storeFail s t k r = .ok s') :
+    ∃ n, canAct s t ∧ k ≠ 0 ∧ k < s.nK ∧ (s.key k).wrapperFreed = false ∧ (s.key k).published = some n ∧
+    s' = { s with dtorLog := s.dtorLog ++ notifyOld s t k n (if r then replaceCallsNotifier else setCallsNotifier) } := by
+  unfold storeFail at h
   split at h
   · cases h
   · rename_i hg
@@ -1035,6 +1096,18 @@ theorem KInv.step {s s' : State} {e : Ev} (hk : KInv s) (hs : step s e = .ok s')
   | currentFail t =>
     obtain ⟨_, _, rfl⟩ := currentFail_ok hs
     exact hk.frame rfl rfl rfl rfl hk.tP (fun _ => rfl) (fun _ _ hv => .inl hv)
+  | storeFail t k r =>
+    obtain ⟨n, _, _, _, _, _, rfl⟩ := storeFail_ok hs
+    exact hk.frame rfl rfl rfl rfl hk.tP (fun _ => rfl) (fun _ _ hv => .inl hv)
+  | startUnstored t =>
+    obtain ⟨hd, hph, _, _, _, _, _, rfl⟩ := startUnstored_ok hs
+    have h1 := hk.setPhase (t := t) (by rw [hph]; simp) { s.thr t with phase := .running, handle := none, proxy := some hd } rfl
+    exact h1.frame rfl rfl rfl rfl h1.tP (fun _ => rfl) (fun _ _ hv => .inl hv)
+  | retUnstored t h =>
+    obtain ⟨hc, _, s1, hu, rfl⟩ := retUnstored_ok hs
+    have h1 := hk.unrefCore hu
+    have ht := unrefCore_thr hu
+    exact h1.setPhase (by rw [ht.1, hc.1]; simp) _ rfl
 
 /-! ## `HInv`: handles, reference counts, threads, the library key's cells -/
 
@@ -1052,7 +1125,7 @@ structure HInv (s : State) : Prop where
   sC : ∀ c, s.spin = some c → c.h < s.nH ∧ (s.hdl c.h).written = false ∧
         (s.thr (s.hdl c.h).thread).handle = some c.h ∧ (s.thr (s.hdl c.h).thread).phase = .created
   tH : ∀ t h, (s.thr t).handle = some h → h < s.nH ∧ (s.hdl h).thread = t
-  hO : ∀ h, (s.hdl h).ours = true → (s.thr (s.hdl h).thread).handle = some h
+  hO : ∀ h, (s.hdl h).ours = true → (s.hdl h).orphan = false → (s.thr (s.hdl h).thread).handle = some h
   hW : ∀ t h, (s.thr t).handle = some h → (s.hdl h).written = true → (s.hdl h).ours = true
   hJ : ∀ h, (s.hdl h).written = true → (s.hdl h).ours = false → (s.hdl h).joinable = false
   tC : ∀ t, (s.thr t).phase = .created →
@@ -1087,6 +1160,142 @@ theorem HInv.init : HInv init := by
   · intro t h hh; simp [PV.UThread.init] at hh; split at hh <;> cases hh
   · intro h; simp [PV.UThread.init]
   · simp [PV.UThread.init]
+
+/-! ## `PInv`: library threads that run without their handle in the TLS slot (`startUnstored`) -/
+
+structure PInv (s : State) : Prop where
+  pP : ∀ t h, (s.thr t).proxy = some h →
+        (s.thr t).handle = none ∧ (s.thr t).exitArg = none ∧ h < s.nH ∧ (s.hdl h).thread = t ∧ (s.hdl h).orphan = true ∧
+        (s.hdl h).ours = true ∧ (s.hdl h).written = true ∧ (s.hdl h).retCode = 0 ∧ (s.thr t).phase ≠ .created ∧
+        ((s.thr t).phase = .running → (s.hdl h).threadRef = true)
+  pO : ∀ h, (s.hdl h).orphan = true → (s.thr (s.hdl h).thread).proxy = some h
+  /-- a handle that sits in a library cell is not such a handle -/
+  pS : ∀ t n, (s.nkey n).owner = 0 → s.tls t n ≠ 0 → (s.hdl (s.tls t n - 1)).orphan = false
+
+theorem PInv.init : PInv init := by
+  refine ⟨?_, ?_, ?_⟩
+  · intro t h hp; simp [PV.UThread.init] at hp; split at hp <;> cases hp
+  · intro h ho; simp [PV.UThread.init] at ho
+  · intro t n _ hv; simp [PV.UThread.init] at hv
+
+/-- the general preservation argument: proxies stay, what is known of them and of their handles stays, nothing new
+    becomes such a handle, and a library cell either is as before or holds an ordinary handle -/
+theorem PInv.of {s s' : State} (hp : PInv s)
+    (eP : ∀ t, (s'.thr t).proxy = (s.thr t).proxy)
+    (eT : ∀ t h, (s.thr t).proxy = some h → (s'.thr t).handle = none ∧ (s'.thr t).exitArg = none ∧
+      (s'.thr t).phase ≠ .created ∧ ((s'.thr t).phase = .running → (s.thr t).phase = .running))
+    (eN : s.nH ≤ s'.nH)
+    (eH : ∀ h, (s.hdl h).orphan = true → (s'.hdl h).thread = (s.hdl h).thread ∧ (s'.hdl h).orphan = true ∧
+      (s'.hdl h).ours = (s.hdl h).ours ∧ (s'.hdl h).written = (s.hdl h).written ∧ (s'.hdl h).retCode = (s.hdl h).retCode ∧
+      ((s.hdl h).threadRef = true → (s'.hdl h).threadRef = true ∨ (s'.thr (s.hdl h).thread).phase ≠ .running))
+    (eO : ∀ h, (s'.hdl h).orphan = true → (s.hdl h).orphan = true)
+    (eS : ∀ t n, (s'.nkey n).owner = 0 → s'.tls t n ≠ 0 →
+      ((s.nkey n).owner = 0 ∧ s.tls t n ≠ 0 ∧ s'.tls t n = s.tls t n) ∨ (s'.hdl (s'.tls t n - 1)).orphan = false) : PInv s' := by
+  refine ⟨?_, ?_, ?_⟩
+  · intro t h hpx
+    rw [eP] at hpx
+    obtain ⟨_, _, p3, p4, p5, p6, p7, p8, _, p10⟩ := hp.pP t h hpx
+    obtain ⟨t1, t2, t3, t4⟩ := eT t h hpx
+    obtain ⟨h1, h2, h3, h4, h5, h6⟩ := eH h p5
+    refine ⟨t1, t2, by omega, h1.trans p4, h2, h3.trans p6, h4.trans p7, h5.trans p8, t3, ?_⟩
+    intro hr
+    rcases h6 (p10 (t4 hr)) with h7 | h7
+    · exact h7
+    · rw [p4] at h7; exact absurd hr h7
+  · intro h ho
+    have ho' := eO h ho
+    rw [(eH h ho').1, eP]; exact hp.pO h ho'
+  · intro t n ho hv
+    rcases eS t n ho hv with ⟨a, b, c⟩ | d
+    · rw [c]
+      cases hx : (s'.hdl (s.tls t n - 1)).orphan with
+      | false => rfl
+      | true => have := eO _ hx; rw [hp.pS t n a b] at this; cases this
+    · exact d
+
+/-- events that touch neither handles nor the thread records (up to `pend`) nor the library cells -/
+theorem PInv.frame {s s' : State} (hp : PInv s) (e1 : s'.hdl = s.hdl) (e2 : s.nH ≤ s'.nH)
+    (e3 : ∀ t, (s'.thr t).proxy = (s.thr t).proxy ∧ (s'.thr t).handle = (s.thr t).handle ∧ (s'.thr t).exitArg = (s.thr t).exitArg ∧
+      (s'.thr t).phase = (s.thr t).phase)
+    (e4 : ∀ t n, (s'.nkey n).owner = 0 → s'.tls t n ≠ 0 → (s.nkey n).owner = 0 ∧ s.tls t n ≠ 0 ∧ s'.tls t n = s.tls t n) : PInv s' := by
+  refine hp.of (fun t => (e3 t).1) ?_ e2 ?_ ?_ (fun t n a b => .inl (e4 t n a b))
+  · intro t h hpx
+    obtain ⟨p1, p2, _, _, _, _, _, _, p9, _⟩ := hp.pP t h hpx
+    exact ⟨(e3 t).2.1.trans p1, (e3 t).2.2.1.trans p2, by rw [(e3 t).2.2.2]; exact p9, fun hr => by rw [(e3 t).2.2.2] at hr; exact hr⟩
+  · intro h ho; rw [e1]; exact ⟨rfl, ho, rfl, rfl, rfl, fun x => .inl x⟩
+  · intro h ho; rw [e1] at ho; exact ho
+
+/-- one handle record replaced (thread records and cells as they are) -/
+theorem PInv.updH {s : State} (hp : PInv s) {h0 : Nat} {x' : Handle} {fl : List Nat}
+    (e_or : x'.orphan = (s.hdl h0).orphan)
+    (hx : (s.hdl h0).orphan = true → x'.thread = (s.hdl h0).thread ∧ x'.ours = (s.hdl h0).ours ∧ x'.written = (s.hdl h0).written ∧
+      x'.retCode = (s.hdl h0).retCode ∧ ((s.hdl h0).threadRef = true → x'.threadRef = true)) :
+    PInv { s with hdl := upd s.hdl h0 x', freeLog := fl } := by
+  refine hp.of (fun _ => rfl) ?_ (Nat.le_refl _) ?_ ?_ ?_
+  · intro t h hpx
+    obtain ⟨p1, p2, _, _, _, _, _, _, p9, _⟩ := hp.pP t h hpx
+    exact ⟨p1, p2, p9, id⟩
+  · intro h ho; simp only
+    by_cases e : h = h0
+    · subst e; simp only [upd, if_true]
+      obtain ⟨a, b, c, d, f⟩ := hx ho
+      exact ⟨a, by rw [e_or]; exact ho, b, c, d, fun x => .inl (f x)⟩
+    · rw [upd_ne _ _ e]; exact ⟨rfl, ho, rfl, rfl, rfl, fun x => .inl x⟩
+  · intro h ho; simp only at ho
+    by_cases e : h = h0
+    · subst e; simp only [upd, if_true] at ho; rw [e_or] at ho; exact ho
+    · rw [upd_ne _ _ e] at ho; exact ho
+  · intro t n a b; simp only at a b ⊢
+    by_cases e : s.tls t n - 1 = h0
+    · right; rw [e]; simp only [upd, if_true]; rw [e_or, ← e]; exact hp.pS t n a b
+    · refine .inl ⟨a, b, ?_⟩; first | rfl | trivial
+
+/-- one thread record replaced: not a proxied thread, or only its phase moves on from `running` -/
+theorem PInv.updT {s : State} (hp : PInv s) {t : Nat} {x : Thread} (e1 : x.proxy = (s.thr t).proxy)
+    (e2 : (s.thr t).proxy ≠ none → x.handle = (s.thr t).handle ∧ x.exitArg = (s.thr t).exitArg ∧ x.phase ≠ .created ∧
+      (x.phase = .running → (s.thr t).phase = .running)) :
+    PInv { s with thr := upd s.thr t x } := by
+  refine hp.of ?_ ?_ (Nat.le_refl _) ?_ (fun _ ho => ho) (fun _ _ a b => .inl ⟨a, b, rfl⟩)
+  · intro t'; simp only
+    by_cases e : t' = t
+    · subst e; simp [upd, e1]
+    · rw [upd_ne _ _ e]
+  · intro t' h hpx; simp only
+    obtain ⟨p1, p2, _, _, _, _, _, _, p9, _⟩ := hp.pP t' h hpx
+    by_cases e : t' = t
+    · subst e; simp only [upd, if_true]
+      obtain ⟨a, b, c, d⟩ := e2 (by rw [hpx]; simp)
+      exact ⟨a.trans p1, b.trans p2, c, d⟩
+    · rw [upd_ne _ _ e]; exact ⟨p1, p2, p9, id⟩
+  · intro h ho; exact ⟨rfl, ho, rfl, rfl, rfl, fun x => .inl x⟩
+
+theorem currentCore_orphan {s : State} (hp : PInv s) (hi : HInv s) (hk : KInv s) {t n : Nat} (hpub : (s.key 0).published = some n) :
+    ((currentCore s t n).1.hdl (currentCore s t n).2).orphan = false := by
+  unfold currentCore
+  split
+  · rename_i hv; exact hp.pS t n (hk.kP 0 n hpub).2.1 hv
+  · simp
+
+theorem PInv.currentCore_inv {s : State} (hp : PInv s) (hi : HInv s) (t n : Nat) : PInv (currentCore s t n).1 := by
+  unfold currentCore
+  split
+  · exact hp
+  · have hnew := hi.hB s.nH (Nat.le_refl _)
+    refine hp.of (fun _ => rfl) ?_ (Nat.le_succ _) ?_ ?_ ?_
+    · intro t' h hpx
+      obtain ⟨p1, p2, _, _, _, _, _, _, p9, _⟩ := hp.pP t' h hpx
+      exact ⟨p1, p2, p9, id⟩
+    · intro h ho; simp only
+      have e : h ≠ s.nH := by intro e; subst e; rw [hnew] at ho; cases ho
+      rw [upd_ne _ _ e]; exact ⟨rfl, ho, rfl, rfl, rfl, fun x => .inl x⟩
+    · intro h ho; simp only at ho
+      by_cases e : h = s.nH
+      · subst e; simp [upd] at ho
+      · rw [upd_ne _ _ e] at ho; exact ho
+    · intro t' n' a b; simp only at a b ⊢
+      by_cases c : t' = t ∧ n' = n
+      · obtain ⟨rfl, rfl⟩ := c; right; simp [upd, upd2]
+      · rw [upd2_ne _ _ c] at b ⊢; exact .inl ⟨a, b, rfl⟩
 
 /-- the handle of a thread that has passed the creation spinlock has all its fields written -/
 theorem HInv.written_of_started {s : State} (hi : HInv s) {t h : Nat} (hh : (s.thr t).handle = some h)
@@ -1135,6 +1344,7 @@ theorem HInv.frame {s s' : State} (hi : HInv s)
 theorem HInv.updHandle {s : State} (hi : HInv s) {h0 : Nat} {x' : Handle} {fl : List Nat}
     (hw : (s.hdl h0).written = true) (e_w : x'.written = true) (e_t : x'.thread = (s.hdl h0).thread)
     (e_o : x'.ours = (s.hdl h0).ours) (e_j : x'.joinable = (s.hdl h0).joinable) (e_r : x'.retCode = (s.hdl h0).retCode)
+    (e_or : x'.orphan = (s.hdl h0).orphan)
     (e_tr : x'.threadRef = (s.hdl h0).threadRef ∨
       ((∀ t', (s.thr t').handle = some h0 → (s.thr t').phase ≠ .created) ∧
        (∀ t' n', (s.nkey n').owner = 0 → s.tls t' n' ≠ 0 → s.tls t' n' - 1 ≠ h0)))
@@ -1172,7 +1382,7 @@ theorem HInv.updHandle {s : State} (hi : HInv s) {h0 : Nat} {x' : Handle} {fl : 
     · rw [upd_ne _ _ e]; exact hi.tH t h hh
   · intro h; simp only
     by_cases e : h = h0
-    · subst e; simp [e_t, e_o]; exact hi.hO h
+    · subst e; simp [e_t, e_o, e_or]; exact hi.hO h
     · rw [upd_ne _ _ e]; exact hi.hO h
   · intro t h hh; simp only at hh ⊢
     by_cases e : h = h0
@@ -1220,17 +1430,17 @@ theorem HInv.updHandle {s : State} (hi : HInv s) {h0 : Nat} {x' : Handle} {fl : 
 theorem HInv.ref_inv {s s' : State} {a h : Nat} (hi : HInv s) (hs : ref s a h = .ok s') : HInv s' := by
   obtain ⟨_, _, hw, hf, rfl⟩ := ref_ok hs
   have := hi.hR h hf
-  refine hi.updHandle (fl := s.freeLog) hw hw rfl rfl rfl rfl (.inl rfl) ?_ ?_ (.inl ⟨rfl, rfl⟩)
+  refine hi.updHandle (fl := s.freeLog) hw hw rfl rfl rfl rfl rfl (.inl rfl) ?_ ?_ (.inl ⟨rfl, rfl⟩)
   · intro _; simp only [holders, refIncrement] at this ⊢; split at this <;> simp_all <;> omega
   · intro _; simp only [holders]; omega
 
 theorem HInv.unrefCore_user {s s' : State} {h : Nat} (hi : HInv s) (hw : (s.hdl h).written = true)
     (hs : unrefCore s h false = .ok s') : HInv s' := by
   obtain ⟨hf, ⟨hc, rfl⟩ | ⟨hc, rfl⟩⟩ := unrefCore_ok hs
-  · exact hi.updHandle hw (by simp [decd, hw]) rfl rfl rfl rfl (.inl (by simp [decd])) (by simp) (by simp) (.inr ⟨hf, rfl, rfl⟩)
+  · exact hi.updHandle hw (by simp [decd, hw]) rfl rfl rfl rfl rfl (.inl (by simp [decd])) (by simp) (by simp) (.inr ⟨hf, rfl, rfl⟩)
   · have h1 := hi.hR h hf
     have h2 := hi.hL h hw hf
-    refine hi.updHandle (fl := s.freeLog) hw (by simp [decd, hw]) rfl rfl rfl rfl (.inl (by simp [decd])) ?_ ?_ (.inl ⟨by simp [decd, hf], rfl⟩)
+    refine hi.updHandle (fl := s.freeLog) hw (by simp [decd, hw]) rfl rfl rfl rfl rfl (.inl (by simp [decd])) ?_ ?_ (.inl ⟨by simp [decd, hf], rfl⟩)
     · intro _
       simp only [holders, decd, unrefDecrement, unrefFreesWhenOldIs] at h1 h2 hc ⊢
       by_cases htr : (s.hdl h).threadRef = true <;> simp [htr] at h1 h2 ⊢ <;> omega
@@ -1242,7 +1452,7 @@ theorem HInv.join_inv {s s' : State} {a h : Nat} (hi : HInv s) (hs : join s a h 
   obtain ⟨_, _, hw, hf, ⟨_, rfl⟩ | ⟨_, _, _, rfl⟩⟩ := join_ok hs
   · exact hi.frame rfl rfl rfl rfl rfl (fun _ => ⟨rfl, rfl, rfl⟩) (Nat.le_refl _) (fun _ _ hp => ⟨hp, rfl⟩)
       (fun _ _ ho _ => ⟨ho, rfl⟩) hi.tT
-  · have := hi.updHandle (x' := { s.hdl h with joined := true }) (fl := s.freeLog) hw hw rfl rfl rfl rfl (.inl rfl)
+  · have := hi.updHandle (x' := { s.hdl h with joined := true }) (fl := s.freeLog) hw hw rfl rfl rfl rfl rfl (.inl rfl)
       (fun hf' => hi.hR h hf') (fun hf' => hi.hL h hw hf') (.inl ⟨rfl, rfl⟩)
     exact this.frame rfl rfl rfl rfl rfl (fun _ => ⟨rfl, rfl, rfl⟩) (Nat.le_refl _) (fun _ _ hp => ⟨hp, rfl⟩)
       (fun _ _ ho _ => ⟨ho, rfl⟩) this.tT
@@ -1359,10 +1569,10 @@ theorem HInv.libDtor {s s' : State} (hi : HInv s) (hk : KInv s) {t n : Nat} (hp 
         rw [ho] at p1; rw [ho'] at p2; rw [p1] at p2; injection p2 with p2
         exact c ⟨rfl, p2.symm⟩
   obtain ⟨hf, ⟨hcnt, rfl⟩ | ⟨hcnt, rfl⟩⟩ := unrefCore_ok hs
-  · exact hc.updHandle (h0 := s.tls t n - 1) hw (by simp [decd, cleared, hw]) rfl rfl rfl rfl (.inr hno) (by simp) (by simp)
+  · exact hc.updHandle (h0 := s.tls t n - 1) hw (by simp [decd, cleared, hw]) rfl rfl rfl rfl rfl (.inr hno) (by simp) (by simp)
       (.inr ⟨hf, rfl, rfl⟩)
   · have h1 := hi.hR _ hf
-    refine hc.updHandle (h0 := s.tls t n - 1) (fl := s.freeLog) hw (by simp [decd, cleared, hw]) rfl rfl rfl rfl (.inr hno) ?_ ?_
+    refine hc.updHandle (h0 := s.tls t n - 1) (fl := s.freeLog) hw (by simp [decd, cleared, hw]) rfl rfl rfl rfl rfl (.inr hno) ?_ ?_
       (.inl ⟨by simp [decd, cleared] at hf ⊢, rfl⟩)
     · intro _
       simp only [cleared] at hcnt hf
@@ -1453,8 +1663,8 @@ theorem HInv.spawn_inv {s s' : State} (hi : HInv s) (hk : KInv s) (hs : spawn s 
     by_cases e : t = s.nT
     · subst e; simp at hh
     · rw [upd_ne _ _ e] at hh; exact hi.tH t h hh
-  · intro h hh; simp only at hh ⊢
-    have := hi.hO h hh
+  · intro h hh ho'; simp only at hh ho' ⊢
+    have := hi.hO h hh ho'
     rw [upd_ne _ _ (ne_of_handle _ _ this)]; exact this
   · intro t h hh; simp only at hh ⊢
     by_cases e : t = s.nT
@@ -1524,7 +1734,8 @@ theorem HInv.createBegin_inv {s s' : State} {a : Nat} {j n : Bool} (hi : HInv s)
     by_cases e : h = s.nH
     · subst e; simp at hh
     · rw [upd_ne _ _ e] at hh ⊢
-      have := hi.hO h hh
+      intro ho'
+      have := hi.hO h hh ho'
       rw [upd_ne _ _ (ne_of_handle _ _ this)]; exact this
   · intro t h hh; simp only at hh ⊢
     by_cases e : t = s.nT
@@ -1628,6 +1839,93 @@ theorem HInv.createFail_inv {s s' : State} {a : Nat} (hi : HInv s) (hs : createF
 theorem HInv.currentFail_inv {s s' : State} {t : Nat} (hi : HInv s) (hs : currentFail s t = .ok s') : HInv s' := by
   obtain ⟨_, _, rfl⟩ := currentFail_ok hs; exact hi.allocFreed
 
+theorem HInv.startUnstored_inv {s s' : State} {t : Nat} (hi : HInv s) (hs : startUnstored s t = .ok s') : HInv s' := by
+  obtain ⟨h, hph, _, hh, hspin, _, _, rfl⟩ := startUnstored_ok hs
+  have hth := (hi.tH t h hh).2
+  have hlt := (hi.tH t h hh).1
+  have eH : ∀ h', (upd s.hdl h { s.hdl h with orphan := true } h').refCount = (s.hdl h').refCount ∧
+      (upd s.hdl h { s.hdl h with orphan := true } h').freed = (s.hdl h').freed ∧
+      (upd s.hdl h { s.hdl h with orphan := true } h').written = (s.hdl h').written ∧
+      (upd s.hdl h { s.hdl h with orphan := true } h').userRefs = (s.hdl h').userRefs ∧
+      (upd s.hdl h { s.hdl h with orphan := true } h').threadRef = (s.hdl h').threadRef ∧
+      (upd s.hdl h { s.hdl h with orphan := true } h').thread = (s.hdl h').thread ∧
+      (upd s.hdl h { s.hdl h with orphan := true } h').ours = (s.hdl h').ours ∧
+      (upd s.hdl h { s.hdl h with orphan := true } h').joinable = (s.hdl h').joinable ∧
+      (upd s.hdl h { s.hdl h with orphan := true } h').retCode = (s.hdl h').retCode := by
+    intro h'; by_cases e : h' = h
+    · subst e; simp [upd]
+    · rw [upd_ne _ _ e]; simp
+  have eT : ∀ t' h', (upd s.thr t { s.thr t with phase := .running, handle := none, proxy := some h } t').handle = some h' →
+      t' ≠ t := by
+    intro t' h' hx e; subst e; simp [upd] at hx
+  refine ⟨hi.k0, ?_, hi.tT, ?_, ?_, ?_, ?_, ?_, ?_, ?_, ?_, ?_, ?_, ?_, ?_, ?_, ?_, hi.fN⟩
+  · intro h' hh'; simp only at hh' ⊢; rw [upd_ne _ _ (by omega)]; exact hi.hB h' hh'
+  · intro h'; simp only [holders]; rw [(eH h').1, (eH h').2.1, (eH h').2.2.2.1, (eH h').2.2.2.2.1]; exact hi.hR h'
+  · intro h'; simp only [holders]; rw [(eH h').2.1, (eH h').2.2.1, (eH h').2.2.2.1, (eH h').2.2.2.2.1]; exact hi.hL h'
+  · intro h' hw'; simp only at hw' ⊢
+    rw [(eH h').2.2.1] at hw'
+    rw [(eH h').1, (eH h').2.1, (eH h').2.2.2.1, (eH h').2.2.2.2.1, (eH h').2.2.2.2.2.2.1, (eH h').2.2.2.2.2.2.2.2]
+    exact hi.hU h' hw'
+  · intro h' hlt' hw'; simp only at hlt' hw' ⊢; rw [(eH h').2.2.1] at hw'; exact hi.hS h' hlt' hw'
+  · intro c hc; simp only at hc; rw [hspin] at hc; cases hc
+  · intro t' h' hx; simp only at hx ⊢
+    have e := eT t' h' hx
+    rw [upd_ne _ _ e] at hx; rw [(eH h').2.2.2.2.2.1]; exact hi.tH t' h' hx
+  · intro h' ho hor; simp only at ho hor ⊢
+    have e : h' ≠ h := by intro e; subst e; simp [upd] at hor
+    rw [upd_ne _ _ e] at ho hor ⊢
+    have := hi.hO h' ho hor
+    have e2 : (s.hdl h').thread ≠ t := by
+      intro e2; rw [e2, hh] at this; injection this with this; exact e this.symm
+    rw [upd_ne _ _ e2]; exact this
+  · intro t' h' hx; simp only at hx ⊢
+    have e := eT t' h' hx
+    rw [upd_ne _ _ e] at hx; rw [(eH h').2.2.1, (eH h').2.2.2.2.2.2.1]; exact hi.hW t' h' hx
+  · intro h'; simp only; rw [(eH h').2.2.1, (eH h').2.2.2.2.2.2.1, (eH h').2.2.2.2.2.2.2.1]; exact hi.hJ h'
+  · intro t' hp'; simp only at hp' ⊢
+    have e : t' ≠ t := by intro e; subst e; simp [upd] at hp'
+    rw [upd_ne _ _ e] at hp' ⊢
+    obtain ⟨h', a, b⟩ := hi.tC t' hp'
+    exact ⟨h', a, by rw [(eH h').2.2.1, (eH h').2.2.2.2.1]; exact b⟩
+  · intro t' h' hp' hx; simp only at hp' hx ⊢
+    have e := eT t' h' hx
+    rw [upd_ne _ _ e] at hp' hx; exact hi.tR t' h' hp' hx
+  · intro t' n ho hv; simp only at ho hv ⊢
+    rw [(eH _).2.2.1, (eH _).2.2.2.2.1, (eH _).2.2.2.2.2.1]; exact hi.lT t' n ho hv
+  · intro t' h' hx; simp only at hx ⊢
+    have e := eT t' h' hx
+    rw [upd_ne _ _ e] at hx ⊢; rw [(eH h').2.2.2.2.2.2.2.2]; exact hi.jC t' h' hx
+  · intro h'; simp only; rw [(eH h').2.1]; exact hi.fL h'
+
+theorem HInv.retUnstored_inv {s s' : State} {t h : Nat} (hi : HInv s) (hp : PInv s) (hs : retUnstored s t h = .ok s') : HInv s' := by
+  obtain ⟨hc, hpx, s1, hu, rfl⟩ := retUnstored_ok hs
+  obtain ⟨p1, _, _, p4, p5, _, p7, _, _, p10⟩ := hp.pP t h hpx
+  have htr := p10 hc.1
+  -- no created thread and no library cell refers to the handle
+  have hno : (∀ t', (s.thr t').handle = some h → (s.thr t').phase ≠ .created) ∧
+      (∀ t' n', (s.nkey n').owner = 0 → s.tls t' n' ≠ 0 → s.tls t' n' - 1 ≠ h) := by
+    constructor
+    · intro t' hx
+      have := (hi.tH t' h hx).2; rw [p4] at this; subst this; rw [p1] at hx; cases hx
+    · intro t' n' ho' hv' e
+      have := hp.pS t' n' ho' hv'; rw [e, p5] at this; cases this
+  have h1 : HInv s1 := by
+    obtain ⟨hf, ⟨hcnt, rfl⟩ | ⟨hcnt, rfl⟩⟩ := unrefCore_ok hu
+    · exact hi.updHandle (h0 := h) p7 (by simp [decd, p7]) rfl rfl rfl rfl rfl (.inr hno) (by simp) (by simp) (.inr ⟨hf, rfl, rfl⟩)
+    · have hr := hi.hR _ hf
+      refine hi.updHandle (h0 := h) (fl := s.freeLog) p7 (by simp [decd, p7]) rfl rfl rfl rfl rfl (.inr hno) ?_ ?_
+        (.inl ⟨by simp [decd, hf], rfl⟩)
+      · intro _
+        simp only [holders, decd, unrefDecrement, unrefFreesWhenOldIs, htr] at hr hcnt ⊢
+        simp at hr ⊢; omega
+      · intro _
+        simp only [holders, decd, unrefDecrement, unrefFreesWhenOldIs, htr] at hr hcnt ⊢
+        simp at hr ⊢; omega
+  have ht := (unrefCore_thr hu).1
+  refine h1.updThread rfl (by simp) (by simp) (by rw [ht, hc.1]; simp) ?_
+  intro h' hx _
+  rw [ht, p1] at hx; cases hx
+
 theorem HInv.createEnd_inv {s s' : State} {a : Nat} (hi : HInv s) (hs : createEnd s a = .ok s') : HInv s' := by
   obtain ⟨c, hspin, _, rfl⟩ := createEnd_ok hs
   obtain ⟨hlt, hw, hlink, hph⟩ := hi.sC c hspin
@@ -1664,7 +1962,7 @@ theorem HInv.createEnd_inv {s s' : State} {a : Nat} (hi : HInv s) (hs : createEn
     · rw [upd_ne _ _ e]; exact hi.tH t h hh
   · intro h hh; simp only at hh ⊢
     by_cases e : h = c.h
-    · subst e; simp; exact hlink
+    · subst e; simp; exact fun _ => hlink
     · rw [upd_ne _ _ e] at hh ⊢; exact hi.hO h hh
   · intro t h hh; simp only at hh ⊢
     by_cases e : h = c.h
@@ -1713,7 +2011,8 @@ theorem HInv.exitWrite {s : State} (hi : HInv s) {t h : Nat} {code : Int} (hp : 
       (upd s.hdl h { s.hdl h with retCode := code } h').threadRef = (s.hdl h').threadRef ∧
       (upd s.hdl h { s.hdl h with retCode := code } h').thread = (s.hdl h').thread ∧
       (upd s.hdl h { s.hdl h with retCode := code } h').ours = (s.hdl h').ours ∧
-      (upd s.hdl h { s.hdl h with retCode := code } h').joinable = (s.hdl h').joinable := by
+      (upd s.hdl h { s.hdl h with retCode := code } h').joinable = (s.hdl h').joinable ∧
+      (upd s.hdl h { s.hdl h with retCode := code } h').orphan = (s.hdl h').orphan := by
     intro h'; by_cases e : h' = h
     · subst e; simp
     · rw [upd_ne _ _ e]; simp
@@ -1734,9 +2033,9 @@ theorem HInv.exitWrite {s : State} (hi : HInv s) {t h : Nat} {code : Int} (hp : 
     have e : (s.hdl c.h).thread ≠ t := by intro e; rw [e, hp] at this; cases this.2.2.2
     rw [upd_ne _ _ e]; exact this
   · intro t' h' hh'; simp only at hh' ⊢; rw [eh] at hh'; rw [(eH h').2.2.2.2.2.1]; exact hi.tH t' h' hh'
-  · intro h' ho; simp only at ho ⊢; rw [(eH h').2.2.2.2.2.2.1] at ho; rw [(eH h').2.2.2.2.2.1, eh]; exact hi.hO h' ho
+  · intro h' ho; simp only at ho ⊢; rw [(eH h').2.2.2.2.2.2.1] at ho; rw [(eH h').2.2.2.2.2.1, eh, (eH h').2.2.2.2.2.2.2.2]; exact hi.hO h' ho
   · intro t' h' hh'; simp only at hh' ⊢; rw [eh] at hh'; rw [(eH h').2.2.1, (eH h').2.2.2.2.2.2.1]; exact hi.hW t' h' hh'
-  · intro h'; simp only; rw [(eH h').2.2.1, (eH h').2.2.2.2.2.2.1, (eH h').2.2.2.2.2.2.2]; exact hi.hJ h'
+  · intro h'; simp only; rw [(eH h').2.2.1, (eH h').2.2.2.2.2.2.1, (eH h').2.2.2.2.2.2.2.1]; exact hi.hJ h'
   · intro t' hp'; simp only at hp' ⊢
     have e : t' ≠ t := by intro e; subst e; simp at hp'
     rw [upd_ne _ _ e] at hp' ⊢
@@ -1892,23 +2191,23 @@ theorem HInv.current_inv {s s' : State} {t : Nat} (hi : HInv s) (hk : KInv s) (h
   exact (hi.currentCore_inv hk hc hpub).logs _ _ _ _
 
 
-theorem HInv.exit_inv {s s' : State} {t : Nat} {code : Int} (hi : HInv s) (hk : KInv s) (hs : exit s t code = .ok s') : HInv s' := by
+theorem HInv.exit_inv {s s' : State} {t : Nat} {code : Int} (hi : HInv s) (hk : KInv s) (hp : PInv s) (hs : exit s t code = .ok s') : HInv s' := by
   obtain ⟨n, hc, _, hpub, hf, hcase⟩ := exit_ok hs
   have h1 := hi.currentCore_inv hk hc hpub
   obtain ⟨hw, htr, hth⟩ := currentCore_handle hi hk (t := t) hpub
   rcases hcase with ⟨_, rfl⟩ | ⟨ho, rfl⟩
   · exact h1
-  · have hh := h1.hO _ ho
+  · have hh := h1.hO _ ho (currentCore_orphan hp hi hk hpub)
     rw [hth] at hh
     exact h1.exitWrite (by rw [currentCore_thr]; exact hc.1) hh
 
-theorem HInv.step {s s' : State} {e : Ev} (hi : HInv s) (hk : KInv s) (hs : step s e = .ok s') : HInv s' := by
+theorem HInv.step {s s' : State} {e : Ev} (hi : HInv s) (hk : KInv s) (hp : PInv s) (hs : step s e = .ok s') : HInv s' := by
   cases e with
   | spawn => exact hi.spawn_inv hk hs
   | createBegin a j n => exact hi.createBegin_inv hk hs
   | createEnd a => exact hi.createEnd_inv hs
   | start t => exact hi.start_inv hk hs
-  | exit t c => exact hi.exit_inv hk hs
+  | exit t c => exact hi.exit_inv hk hp hs
   | ret t => exact hi.ret_inv hs
   | threadEnd t => exact hi.threadEnd_inv hk hs
   | ref a h => exact hi.ref_inv hs
@@ -1936,12 +2235,303 @@ theorem HInv.step {s s' : State} {e : Ev} (hi : HInv s) (hk : KInv s) (hs : step
     obtain ⟨_, _, _, _, _, rfl⟩ := tlsFail_ok hs
     exact hi.logs _ _ _ _
   | currentFail t => exact hi.currentFail_inv hs
+  | startUnstored t => exact hi.startUnstored_inv hs
+  | storeFail t k r =>
+    obtain ⟨n, _, _, _, _, _, rfl⟩ := storeFail_ok hs
+    exact hi.logs _ _ _ _
+  | retUnstored t h => exact hi.retUnstored_inv hp hs
+
+theorem unrefCore_fields {s s' : State} {h : Nat} {own : Bool} (hs : unrefCore s h own = .ok s') :
+    ∃ x' fl, s' = { s with hdl := upd s.hdl h x', freeLog := fl } ∧ x'.orphan = (s.hdl h).orphan ∧ x'.thread = (s.hdl h).thread ∧
+      x'.ours = (s.hdl h).ours ∧ x'.written = (s.hdl h).written ∧ x'.retCode = (s.hdl h).retCode ∧
+      (own = false → x'.threadRef = (s.hdl h).threadRef) := by
+  obtain ⟨_, ⟨_, rfl⟩ | ⟨_, rfl⟩⟩ := unrefCore_ok hs
+  · exact ⟨_, _, rfl, by simp [decd], by simp [decd], by simp [decd], by simp [decd], by simp [decd], fun ho => by simp [decd, ho]⟩
+  · exact ⟨_, s.freeLog, rfl, by simp [decd], by simp [decd], by simp [decd], by simp [decd], by simp [decd], fun ho => by simp [decd, ho]⟩
+
+/-- `p_uthread_unref` on a handle that is an ordinary one, or by a user -/
+theorem PInv.unrefCore {s s' : State} {h : Nat} {own : Bool} (hp : PInv s) (hs : unrefCore s h own = .ok s')
+    (hc : own = false ∨ (s.hdl h).orphan = false) : PInv s' := by
+  obtain ⟨x', fl, rfl, a, b, c, d, e, f⟩ := unrefCore_fields hs
+  refine hp.updH a ?_
+  intro ho
+  refine ⟨b, c, d, e, fun htr => ?_⟩
+  rcases hc with hc | hc
+  · rw [f hc]; exact htr
+  · rw [hc] at ho; cases ho
+
+theorem PInv.dtorOne {s s' : State} {t n : Nat} (hp : PInv s) (hs : dtorOne t s n = .ok s') : PInv s' := by
+  rcases dtorOne_ok hs with ⟨_, rfl⟩ | ⟨hd, ho, rfl⟩ | ⟨hd, ho, hu⟩
+  · exact hp
+  · refine hp.frame rfl (Nat.le_refl _) (fun _ => ⟨rfl, rfl, rfl, rfl⟩) ?_
+    intro t' n' a b; simp only [cleared] at a b ⊢
+    by_cases c : t' = t ∧ n' = n
+    · obtain ⟨rfl, rfl⟩ := c; simp [upd2] at b
+    · rw [upd2_ne _ _ c] at b ⊢; exact ⟨a, b, rfl⟩
+  · have hc : PInv (cleared s t n) := by
+      refine hp.frame rfl (Nat.le_refl _) (fun _ => ⟨rfl, rfl, rfl, rfl⟩) ?_
+      intro t' n' a b; simp only [cleared] at a b ⊢
+      by_cases c : t' = t ∧ n' = n
+      · obtain ⟨rfl, rfl⟩ := c; simp [upd2] at b
+      · rw [upd2_ne _ _ c] at b ⊢; exact ⟨a, b, rfl⟩
+    exact hc.unrefCore hu (.inr (hp.pS t n ho hd.2.2))
+
+theorem PInv.runDtors {t : Nat} : ∀ {l : List Nat} {s s' : State}, PInv s → runDtors t s l = .ok s' → PInv s'
+  | [], s, s', hp, hs => by unfold PV.UThread.runDtors at hs; injection hs with hs; exact hs ▸ hp
+  | n :: r, s, s', hp, hs => by
+    obtain ⟨s1, h1, h2⟩ := runDtors_cons_ok hs
+    exact PInv.runDtors (hp.dtorOne h1) h2
+
+theorem PInv.step {s s' : State} {e : Ev} (hp : PInv s) (hi : HInv s) (hk : KInv s) (hs : step s e = .ok s') : PInv s' := by
+  have noprox : ∀ t h, (s.thr t).handle = some h → (s.thr t).proxy = none := by
+    intro t h hh
+    cases hx : (s.thr t).proxy with
+    | none => rfl
+    | some h' => rw [(hp.pP t h' hx).1] at hh; cases hh
+  cases e with
+  | spawn =>
+    have := spawn_ok hs; subst this
+    have hnew := hk.tP s.nT (Nat.le_refl _)
+    have h1 := hp.updT (t := s.nT) (x := { phase := .running }) (by rw [hnew]) (by intro hx; rw [hnew] at hx; exact absurd rfl hx)
+    exact ⟨h1.pP, h1.pO, h1.pS⟩
+  | createBegin a j n =>
+    obtain ⟨_, _, rfl⟩ := createBegin_ok hs
+    have hnew := hk.tP s.nT (Nat.le_refl _)
+    have hnewH := hi.hB s.nH (Nat.le_refl _)
+    have h1 : PInv { s with hdl := upd s.hdl s.nH { joinable := j, thread := s.nT }, freeLog := s.freeLog } :=
+      hp.updH (by simp [hnewH]) (by intro ho; rw [hnewH] at ho; cases ho)
+    have h2 := h1.updT (t := s.nT) (x := { phase := .created, handle := some s.nH }) (by rw [hnew]) (by intro hx; rw [hnew] at hx; exact absurd rfl hx)
+    exact h2.of (fun _ => rfl) (fun t h hx => by obtain ⟨p1, p2, _, _, _, _, _, _, p9, _⟩ := h2.pP t h hx; exact ⟨p1, p2, p9, id⟩)
+      (Nat.le_succ _) (fun h ho => ⟨rfl, ho, rfl, rfl, rfl, fun x => .inl x⟩) (fun _ ho => ho) (fun _ _ a b => .inl ⟨a, b, by first | rfl | trivial⟩)
+  | createEnd a =>
+    obtain ⟨c, hspin, _, rfl⟩ := createEnd_ok hs
+    have hw := (hi.sC c hspin).2.1
+    have hor : (s.hdl c.h).orphan = false := by
+      cases hx : (s.hdl c.h).orphan with
+      | false => rfl
+      | true => have := (hp.pP _ _ (hp.pO _ hx)).2.2.2.2.2.2.1; rw [hw] at this; cases this
+    have h1 := hp.updH (h0 := c.h) (fl := s.freeLog) (x' := { s.hdl c.h with
+        refCount := createInitRefCount, ours := true, joinable := c.joinable, named := c.named,
+        written := true, userRefs := 1, threadRef := true }) rfl (by intro ho; rw [hor] at ho; cases ho)
+    exact h1.of (fun _ => rfl) (fun t h hx => by obtain ⟨p1, p2, _, _, _, _, _, _, p9, _⟩ := h1.pP t h hx; exact ⟨p1, p2, p9, id⟩)
+      (Nat.le_refl _) (fun h ho => ⟨rfl, ho, rfl, rfl, rfl, fun x => .inl x⟩) (fun _ ho => ho) (fun _ _ a b => .inl ⟨a, b, by first | rfl | trivial⟩)
+  | start t =>
+    obtain ⟨hd, n, hph, _, hh, _, hpub, hspin, _, rfl⟩ := start_ok hs
+    have hnp := noprox t hd hh
+    have h1 := hp.updT (t := t) (x := { s.thr t with phase := .running }) rfl (by intro hx; exact absurd hnp hx)
+    have hor : (s.hdl hd).orphan = false := by
+      cases hx : (s.hdl hd).orphan with
+      | false => rfl
+      | true =>
+        have := hp.pO _ hx; rw [(hi.tH t hd hh).2, hnp] at this; cases this
+    refine h1.of (fun _ => rfl) (fun t' h hx => by obtain ⟨p1, p2, _, _, _, _, _, _, p9, _⟩ := h1.pP t' h hx; exact ⟨p1, p2, p9, id⟩)
+      (Nat.le_refl _) (fun h ho => ⟨rfl, ho, rfl, rfl, rfl, fun x => .inl x⟩) (fun _ ho => ho) ?_
+    intro t' n' a b; simp only at a b ⊢
+    by_cases c : t' = t ∧ n' = n
+    · obtain ⟨rfl, rfl⟩ := c; right; simp [upd2, hor]
+    · rw [upd2_ne _ _ c] at b ⊢; exact .inl ⟨a, b, by first | rfl | trivial⟩
+  | exit t c =>
+    obtain ⟨n, hc, _, hpub, _, hcase⟩ := exit_ok hs
+    have h1 := hp.currentCore_inv hi t n
+    rcases hcase with ⟨_, rfl⟩ | ⟨ho, rfl⟩
+    · exact h1
+    · have hi1 := hi.currentCore_inv hk hc hpub
+      have hor := currentCore_orphan hp hi hk (t := t) hpub
+      have hth := (currentCore_handle hi hk (t := t) hpub).2.2
+      have hlink := hi1.hO _ ho hor
+      rw [hth] at hlink
+      have hnp : ((currentCore s t n).1.thr t).proxy = none := by
+        cases hx : ((currentCore s t n).1.thr t).proxy with
+        | none => rfl
+        | some h' => rw [(h1.pP t h' hx).1] at hlink; cases hlink
+      have h2 := h1.updH (h0 := (currentCore s t n).2) (fl := (currentCore s t n).1.freeLog)
+        (x' := { (currentCore s t n).1.hdl (currentCore s t n).2 with retCode := c }) rfl (by intro hx; rw [hor] at hx; cases hx)
+      have h3 := h2.updT (t := t) (x := { (currentCore s t n).1.thr t with phase := .finished, exitArg := some c }) rfl
+        (by intro hx; exact absurd hnp hx)
+      exact h3
+  | ret t =>
+    obtain ⟨hc, _, rfl⟩ := ret_ok hs
+    have hnp := ret_proxy hs
+    exact hp.updT rfl (by intro hx; exact absurd hnp hx)
+  | threadEnd t =>
+    obtain ⟨hph, s1, hr, rfl⟩ := threadEnd_ok hs
+    have h1 := hp.runDtors hr
+    have ht := (runDtors_thr hr).1
+    refine h1.updT rfl ?_
+    intro _
+    exact ⟨rfl, rfl, by simp, by intro hx; simp at hx⟩
+  | ref a h =>
+    obtain ⟨_, _, _, _, rfl⟩ := ref_ok hs
+    exact hp.updH (fl := s.freeLog) rfl (fun _ => ⟨rfl, rfl, rfl, rfl, id⟩)
+  | unref a h =>
+    obtain ⟨_, _, _, hu⟩ := unref_ok hs
+    exact hp.unrefCore hu (.inl rfl)
+  | join a h =>
+    obtain ⟨_, _, _, _, ⟨_, rfl⟩ | ⟨_, _, _, rfl⟩⟩ := join_ok hs
+    · exact hp.frame rfl (Nat.le_refl _) (fun _ => ⟨rfl, rfl, rfl, rfl⟩) (fun _ _ a b => ⟨a, b, by first | rfl | trivial⟩)
+    · have := hp.updH (h0 := h) (fl := s.freeLog) (x' := { s.hdl h with joined := true }) rfl (fun _ => ⟨rfl, rfl, rfl, rfl, id⟩)
+      exact this.frame rfl (Nat.le_refl _) (fun _ => ⟨rfl, rfl, rfl, rfl⟩) (fun _ _ a b => ⟨a, b, by first | rfl | trivial⟩)
+  | current t =>
+    obtain ⟨n, _, _, _, rfl⟩ := current_ok hs
+    have h1 := hp.currentCore_inv hi t n
+    exact h1.frame rfl (Nat.le_refl _) (fun _ => ⟨rfl, rfl, rfl, rfl⟩) (fun _ _ a b => ⟨a, b, by first | rfl | trivial⟩)
+  | localNew a n =>
+    obtain ⟨_, rfl⟩ := localNew_ok hs
+    exact hp.frame rfl (Nat.le_refl _) (fun _ => ⟨rfl, rfl, rfl, rfl⟩) (fun _ _ a b => ⟨a, b, by first | rfl | trivial⟩)
+  | localFree a k =>
+    obtain ⟨_, _, _, _, ⟨_, rfl⟩ | ⟨n, hpub, rfl⟩⟩ := localFree_ok hs
+    · exact hp.frame rfl (Nat.le_refl _) (fun _ => ⟨rfl, rfl, rfl, rfl⟩) (fun _ _ a b => ⟨a, b, by first | rfl | trivial⟩)
+    · refine hp.frame rfl (Nat.le_refl _) (fun _ => ⟨rfl, rfl, rfl, rfl⟩) ?_
+      intro t' n' a b; simp only at a b ⊢
+      by_cases e : n' = n
+      · subst e; simp [upd] at a; exact ⟨a, b, by first | rfl | trivial⟩
+      · rw [upd_ne _ _ e] at a; exact ⟨a, b, by first | rfl | trivial⟩
+  | keyCreate t k =>
+    obtain ⟨_, _, _, _, _, rfl⟩ := keyCreate_ok hs
+    refine hp.frame rfl (Nat.le_refl _) (fun t' => ?_) ?_
+    · by_cases e : t' = t
+      · subst e; simp [upd]
+      · simp only; rw [upd_ne _ _ e]; exact ⟨rfl, rfl, rfl, rfl⟩
+    · intro t' n' a b; simp only at a b ⊢
+      by_cases e : n' = s.nN
+      · subst e; exact absurd ((hk.nB _ (Nat.le_refl _)).2 t') b
+      · rw [upd_ne _ _ e] at a; exact ⟨a, b, by first | rfl | trivial⟩
+  | keyCas t k =>
+    obtain ⟨n, hpd, _, ⟨_, rfl⟩ | ⟨_, rfl⟩⟩ := keyCas_ok hs
+    · refine hp.frame rfl (Nat.le_refl _) (fun t' => ?_) (fun _ _ a b => ⟨a, b, by first | rfl | trivial⟩)
+      by_cases e : t' = t
+      · subst e; simp [upd]
+      · simp only; rw [upd_ne _ _ e]; exact ⟨rfl, rfl, rfl, rfl⟩
+    · refine hp.frame rfl (Nat.le_refl _) (fun t' => ?_) ?_
+      · by_cases e : t' = t
+        · subst e; simp [upd]
+        · simp only; rw [upd_ne _ _ e]; exact ⟨rfl, rfl, rfl, rfl⟩
+      · intro t' n' a b; simp only at a b ⊢
+        by_cases e : n' = n
+        · subst e; simp [upd] at a; exact ⟨a, b, by first | rfl | trivial⟩
+        · rw [upd_ne _ _ e] at a; exact ⟨a, b, by first | rfl | trivial⟩
+  | setLocal t k v =>
+    obtain ⟨n, _, hk0, _, _, hpub, rfl⟩ := setLocal_ok hs
+    have hown := (hk.kP k n hpub).2.1
+    refine hp.frame rfl (Nat.le_refl _) (fun _ => ⟨rfl, rfl, rfl, rfl⟩) ?_
+    intro t' n' a b; simp only at a b ⊢
+    have c : ¬ (t' = t ∧ n' = n) := by rintro ⟨_, rfl⟩; rw [hown] at a; exact hk0 a
+    rw [upd2_ne _ _ c] at b ⊢; exact ⟨a, b, by first | rfl | trivial⟩
+  | replaceLocal t k v =>
+    obtain ⟨n, _, hk0, _, _, hpub, rfl⟩ := replaceLocal_ok hs
+    have hown := (hk.kP k n hpub).2.1
+    refine hp.frame rfl (Nat.le_refl _) (fun _ => ⟨rfl, rfl, rfl, rfl⟩) ?_
+    intro t' n' a b; simp only at a b ⊢
+    have c : ¬ (t' = t ∧ n' = n) := by rintro ⟨_, rfl⟩; rw [hown] at a; exact hk0 a
+    rw [upd2_ne _ _ c] at b ⊢; exact ⟨a, b, by first | rfl | trivial⟩
+  | getLocal t k =>
+    obtain ⟨n, _, _, _, _, _, rfl⟩ := getLocal_ok hs
+    exact hp.frame rfl (Nat.le_refl _) (fun _ => ⟨rfl, rfl, rfl, rfl⟩) (fun _ _ a b => ⟨a, b, by first | rfl | trivial⟩)
+  | createFail a =>
+    obtain ⟨_, _, rfl⟩ := createFail_ok hs
+    have hnewH := hi.hB s.nH (Nat.le_refl _)
+    have h1 := hp.updH (h0 := s.nH) (fl := s.freeLog ++ [s.nH]) (x' := { freed := true, written := true }) (by simp [hnewH])
+      (by intro ho; rw [hnewH] at ho; cases ho)
+    exact h1.of (fun _ => rfl) (fun t h hx => by obtain ⟨p1, p2, _, _, _, _, _, _, p9, _⟩ := h1.pP t h hx; exact ⟨p1, p2, p9, id⟩)
+      (Nat.le_succ _) (fun h ho => ⟨rfl, ho, rfl, rfl, rfl, fun x => .inl x⟩) (fun _ ho => ho) (fun _ _ a b => .inl ⟨a, b, by first | rfl | trivial⟩)
+  | joinFail a h =>
+    obtain ⟨_, _, _, _, _, rfl⟩ := joinFail_ok hs
+    exact hp.frame rfl (Nat.le_refl _) (fun _ => ⟨rfl, rfl, rfl, rfl⟩) (fun _ _ a b => ⟨a, b, by first | rfl | trivial⟩)
+  | tlsFail t k g =>
+    obtain ⟨_, _, _, _, _, rfl⟩ := tlsFail_ok hs
+    exact hp.frame rfl (Nat.le_refl _) (fun _ => ⟨rfl, rfl, rfl, rfl⟩) (fun _ _ a b => ⟨a, b, by first | rfl | trivial⟩)
+  | currentFail t =>
+    obtain ⟨_, _, rfl⟩ := currentFail_ok hs
+    have hnewH := hi.hB s.nH (Nat.le_refl _)
+    have h1 := hp.updH (h0 := s.nH) (fl := s.freeLog ++ [s.nH]) (x' := { freed := true, written := true }) (by simp [hnewH])
+      (by intro ho; rw [hnewH] at ho; cases ho)
+    exact h1.of (fun _ => rfl) (fun t h hx => by obtain ⟨p1, p2, _, _, _, _, _, _, p9, _⟩ := h1.pP t h hx; exact ⟨p1, p2, p9, id⟩)
+      (Nat.le_succ _) (fun h ho => ⟨rfl, ho, rfl, rfl, rfl, fun x => .inl x⟩) (fun _ ho => ho) (fun _ _ a b => .inl ⟨a, b, by first | rfl | trivial⟩)
+  | storeFail t k r =>
+    obtain ⟨n, _, _, _, _, _, rfl⟩ := storeFail_ok hs
+    exact hp.frame rfl (Nat.le_refl _) (fun _ => ⟨rfl, rfl, rfl, rfl⟩) (fun _ _ a b => ⟨a, b, by first | rfl | trivial⟩)
+  | startUnstored t =>
+    obtain ⟨h, hph, _, hh, hspin, hv, _, rfl⟩ := startUnstored_ok hs
+    have hth := (hi.tH t h hh).2
+    have hlt := (hi.tH t h hh).1
+    have hnp := noprox t h hh
+    have hw : (s.hdl h).written = true := by
+      cases hw : (s.hdl h).written with
+      | true => rfl
+      | false => obtain ⟨c, hc, _⟩ := hi.hS h hlt hw; rw [hspin] at hc; cases hc
+    have how := hi.hW t h hh hw
+    obtain ⟨h', a1, a2⟩ := hi.tC t hph
+    rw [hh] at a1; injection a1 with a1; subst a1
+    have hjc := (hi.jC t h hh).1 (.inl hph)
+    have horf : (s.hdl h).orphan = false := by
+      cases hx : (s.hdl h).orphan with
+      | false => rfl
+      | true => have := hp.pO _ hx; rw [hth, hnp] at this; cases this
+    refine ⟨?_, ?_, ?_⟩
+    · intro t' h' hx; simp only at hx ⊢
+      by_cases e : t' = t
+      · subst e; simp [upd] at hx; subst hx
+        simp [upd, hlt, hth, how, hw, hjc.1, hjc.2, a2 hw]
+      · rw [upd_ne _ _ e] at hx ⊢
+        obtain ⟨p1, p2, p3, p4, p5, p6, p7, p8, p9, p10⟩ := hp.pP t' h' hx
+        have e2 : h' ≠ h := by intro e2; subst e2; rw [horf] at p5; cases p5
+        rw [upd_ne _ _ e2]; exact ⟨p1, p2, p3, p4, p5, p6, p7, p8, p9, p10⟩
+    · intro h' ho; simp only at ho ⊢
+      by_cases e : h' = h
+      · subst e; simp [upd, hth]
+      · rw [upd_ne _ _ e] at ho ⊢
+        have := hp.pO h' ho
+        have e2 : (s.hdl h').thread ≠ t := by intro e2; rw [e2, hnp] at this; cases this
+        rw [upd_ne _ _ e2]; exact this
+    · intro t' n a b; simp only at a b ⊢
+      have := hp.pS t' n a b
+      have e : s.tls t' n - 1 ≠ h := by
+        intro e
+        have hl := hi.lT t' n a b
+        rw [e, hth] at hl
+        have ht' := hl.2.2; subst ht'
+        have pub := hk.kV _ n b; rw [a] at pub
+        simp only [valueOf, pub] at hv; exact b hv
+      rw [upd_ne _ _ e]; exact this
+  | retUnstored t h =>
+    obtain ⟨hc, hpx, s1, hu, rfl⟩ := retUnstored_ok hs
+    obtain ⟨p1, p2, _, p4, _, _, _, _, _, _⟩ := hp.pP t h hpx
+    obtain ⟨x', fl, rfl, a, b, c, d, e, _⟩ := unrefCore_fields hu
+    refine hp.of ?_ ?_ (Nat.le_refl _) ?_ ?_ ?_
+    · intro t'; simp only
+      by_cases e' : t' = t
+      · subst e'; simp [upd]
+      · rw [upd_ne _ _ e']
+    · intro t' h' hx; simp only
+      obtain ⟨q1, q2, _, _, _, _, _, _, q9, _⟩ := hp.pP t' h' hx
+      by_cases e' : t' = t
+      · subst e'; simp [upd, q1, q2]
+      · rw [upd_ne _ _ e']; exact ⟨q1, q2, q9, id⟩
+    · intro h' ho; simp only
+      by_cases e' : h' = h
+      · subst e'; simp only [upd, if_true]
+        refine ⟨b, by rw [a]; exact ho, c, d, e, fun _ => .inr ?_⟩
+        rw [p4]; simp
+      · rw [upd_ne _ _ e']; exact ⟨rfl, ho, rfl, rfl, rfl, fun x => .inl x⟩
+    · intro h' ho; simp only at ho
+      by_cases e' : h' = h
+      · subst e'; simp only [upd, if_true] at ho; rw [a] at ho; exact ho
+      · rw [upd_ne _ _ e'] at ho; exact ho
+    · intro t' n' ha hb; simp only at ha hb ⊢
+      by_cases e' : s.tls t' n' - 1 = h
+      · right; rw [e']; simp only [upd, if_true]; rw [a, ← e']; exact hp.pS _ _ ha hb
+      · refine .inl ⟨ha, hb, ?_⟩; first | rfl | trivial
+
+/-- all three invariants hold in every reachable state -/
+theorem Reach.inv3 {s : State} (h : Reach s) : KInv s ∧ HInv s ∧ PInv s := by
+  induction h with
+  | init => exact ⟨KInv.init, HInv.init, PInv.init⟩
+  | step e _ hs ih => exact ⟨ih.1.step hs, ih.2.1.step ih.1 ih.2.2 hs, ih.2.2.step ih.2.1 ih.1 hs⟩
+
+theorem Reach.pinv {s : State} (h : Reach s) : PInv s := h.inv3.2.2
 
 /-- both invariants hold in every reachable state -/
-theorem Reach.inv {s : State} (h : Reach s) : KInv s ∧ HInv s := by
-  induction h with
-  | init => exact ⟨KInv.init, HInv.init⟩
-  | step e _ hs ih => exact ⟨ih.1.step hs, ih.2.step ih.1 hs⟩
+theorem Reach.inv {s : State} (h : Reach s) : KInv s ∧ HInv s := ⟨h.inv3.1, h.inv3.2.1⟩
 
 /-! ## along disciplined histories: a freed handle has no holder; no step touches a freed handle -/
 
@@ -1999,7 +2589,7 @@ theorem FInv.runDtors_inv {t : Nat} : ∀ {l : List Nat} {s s' : State}, FInv s 
     exact FInv.runDtors_inv (hf.dtorOne_inv hi h1) (hi.dtorOne_inv hk hp h1) (hk.dtorOne h1)
       (by rw [(dtorOne_thr h1).1]; exact hp) h2
 
-theorem FInv.step {s s' : State} {e : Ev} (hf : FInv s) (hi : HInv s) (hk : KInv s) (hp : Permitted s e)
+theorem FInv.step {s s' : State} {e : Ev} (hf : FInv s) (hi : HInv s) (hk : KInv s) (hpi : PInv s) (hp : Permitted s e)
     (hs : step s e = .ok s') : FInv s' := by
   cases e with
   | spawn => have := spawn_ok hs; subst this; exact hf
@@ -2049,11 +2639,27 @@ theorem FInv.step {s s' : State} {e : Ev} (hf : FInv s) (hi : HInv s) (hk : KInv
   | joinFail a h => obtain ⟨_, _, _, _, _, rfl⟩ := joinFail_ok hs; exact hf
   | tlsFail t k g => obtain ⟨_, _, _, _, _, rfl⟩ := tlsFail_ok hs; exact hf
   | currentFail t => obtain ⟨_, _, rfl⟩ := currentFail_ok hs; exact FInvH.upd hf _ _ (by simp)
+  | storeFail t k r => obtain ⟨n, _, _, _, _, _, rfl⟩ := storeFail_ok hs; exact hf
+  | startUnstored t =>
+    obtain ⟨h, _, _, _, _, _, _, rfl⟩ := startUnstored_ok hs
+    refine FInvH.upd hf _ _ ?_
+    intro hfr; exact hf h hfr
+  | retUnstored t h =>
+    obtain ⟨hc, hpx, s1, hu, rfl⟩ := retUnstored_ok hs
+    have htr := (hpi.pP t h hpx).2.2.2.2.2.2.2.2.2 hc.1
+    obtain ⟨hfr, ⟨hcnt, rfl⟩ | ⟨_, rfl⟩⟩ := unrefCore_ok hu
+    · refine FInvH.upd hf _ _ ?_
+      intro _
+      have h1 := hi.hR _ hfr
+      simp only [holders, unrefFreesWhenOldIs, htr] at h1 hcnt
+      simp [decd]; simp at h1; omega
+    · refine FInvH.upd hf _ _ ?_
+      simp only [decd]; simp [hfr]
 
 theorem DReach.inv {s : State} (h : DReach s) : KInv s ∧ HInv s ∧ FInv s := by
   induction h with
   | init => exact ⟨KInv.init, HInv.init, FInv.init⟩
-  | step e _ hp hs ih => exact ⟨ih.1.step hs, ih.2.1.step ih.1 hs, ih.2.2.step ih.2.1 ih.1 hp hs⟩
+  | step e hd hp hs ih => exact ⟨ih.1.step hs, ih.2.1.step ih.1 hd.reach.pinv hs, ih.2.2.step ih.2.1 ih.1 hd.reach.pinv hp hs⟩
 
 theorem resolve_no_uaf (s : State) (k h : Nat) : resolve s k ≠ .error (.useAfterFree h) := by
   intro hs; unfold resolve at hs
@@ -2096,7 +2702,7 @@ theorem runDtors_no_err {t : Nat} : ∀ {l : List Nat} {s : State}, FInv s → H
 
 /-- `no_use_after_free`, core: in a state reached by a disciplined history a permitted event never
     reads or writes a freed `PUThread` block -/
-theorem step_no_uaf {s : State} {e : Ev} (hf : FInv s) (hi : HInv s) (hk : KInv s) (hp : Permitted s e) :
+theorem step_no_uaf {s : State} {e : Ev} (hf : FInv s) (hi : HInv s) (hk : KInv s) (hpi : PInv s) (hp : Permitted s e) :
     ∀ h, step s e ≠ .error (.useAfterFree h) := by
   intro h hs
   cases e with
@@ -2275,6 +2881,53 @@ theorem step_no_uaf {s : State} {e : Ev} (hf : FInv s) (hi : HInv s) (hk : KInv 
     · split at hs
       · cases hs
       · split at hs <;> cases hs
+  | storeFail t k r =>
+    simp only [step, storeFail] at hs
+    split at hs
+    · cases hs
+    · split at hs
+      · rename_i e' hr; injection hs with hs; subst hs; exact resolve_no_uaf _ _ _ hr
+      · cases hs
+  | startUnstored t =>
+    simp only [step, startUnstored] at hs
+    split at hs
+    · cases hs
+    · rename_i hg
+      split at hs
+      · cases hs
+      · rename_i hd hh
+        split at hs
+        · cases hs
+        · rename_i hspin
+          split at hs
+          · cases hs
+          · split at hs
+            · rename_i hfr
+              have hg' := not_or.mp hg
+              have hph : (s.thr t).phase = .created := by simpa using hg'.1
+              obtain ⟨h', h1, h2⟩ := hi.tC t hph
+              rw [hh] at h1; injection h1 with h1; subst h1
+              have hw : (s.hdl hd).written = true := by
+                cases hw : (s.hdl hd).written with
+                | true => rfl
+                | false => obtain ⟨c, hc, _⟩ := hi.hS hd (hi.tH t hd hh).1 hw; rw [hspin] at hc; cases hc
+              rw [hf.alive (.inr (h2 hw))] at hfr; cases hfr
+            · cases hs
+  | retUnstored t h' =>
+    simp only [step, retUnstored] at hs
+    split at hs
+    · cases hs
+    · rename_i hg
+      have hg' := not_or.mp hg
+      have hc : canAct s t := by simpa using hg'.1
+      have hpx : (s.thr t).proxy = some h' := by simpa using hg'.2
+      split at hs
+      · rename_i e' hu
+        injection hs with hs; subst hs
+        obtain ⟨_, hfr⟩ := unrefCore_err hu
+        have htr := (hpi.pP t h' hpx).2.2.2.2.2.2.2.2.2 hc.1
+        rw [hf.alive (.inr htr)] at hfr; cases hfr
+      · cases hs
 
 /-! ## what thread termination does to cells and to the notifier log -/
 
@@ -2571,10 +3224,16 @@ theorem valueOf_frame {s s' : State} {e : Ev} (hk : KInv s) (hs : step s e = .ok
   | joinFail a h => obtain ⟨_, _, _, _, _, rfl⟩ := joinFail_ok hs; rfl
   | tlsFail t' k' g => obtain ⟨_, _, _, _, _, rfl⟩ := tlsFail_ok hs; rfl
   | currentFail t' => obtain ⟨_, _, rfl⟩ := currentFail_ok hs; rfl
+  | storeFail t' k' r' => obtain ⟨n, _, _, _, _, _, rfl⟩ := storeFail_ok hs; rfl
+  | startUnstored t' => obtain ⟨_, _, _, _, _, _, _, rfl⟩ := startUnstored_ok hs; rfl
+  | retUnstored t' h' =>
+    obtain ⟨_, _, s1, hu, rfl⟩ := retUnstored_ok hs
+    obtain ⟨_, ⟨_, rfl⟩ | ⟨_, rfl⟩⟩ := unrefCore_ok hu <;> rfl
 
 /-- only `replace_local` and thread termination call notifiers -/
 theorem dtorLog_frame {s s' : State} {e : Ev} (hs : step s e = .ok s')
-    (h1 : ∀ t k v, e ≠ .replaceLocal t k v) (h2 : ∀ t, e ≠ .threadEnd t) (h3 : ∀ t k v, e ≠ .setLocal t k v) :
+    (h1 : ∀ t k v, e ≠ .replaceLocal t k v) (h2 : ∀ t, e ≠ .threadEnd t) (h3 : ∀ t k v, e ≠ .setLocal t k v)
+    (h4 : ∀ t k r, e ≠ .storeFail t k r) :
     s'.dtorLog = s.dtorLog := by
   cases e with
   | spawn => have := spawn_ok hs; subst this; rfl
@@ -2602,6 +3261,11 @@ theorem dtorLog_frame {s s' : State} {e : Ev} (hs : step s e = .ok s')
   | joinFail a h => obtain ⟨_, _, _, _, _, rfl⟩ := joinFail_ok hs; rfl
   | tlsFail t' k' g => obtain ⟨_, _, _, _, _, rfl⟩ := tlsFail_ok hs; rfl
   | currentFail t' => obtain ⟨_, _, rfl⟩ := currentFail_ok hs; rfl
+  | storeFail t' k' r' => exact absurd rfl (h4 t' k' r')
+  | startUnstored t' => obtain ⟨_, _, _, _, _, _, _, rfl⟩ := startUnstored_ok hs; rfl
+  | retUnstored t' h' =>
+    obtain ⟨_, _, s1, hu, rfl⟩ := retUnstored_ok hs
+    obtain ⟨_, ⟨_, rfl⟩ | ⟨_, rfl⟩⟩ := unrefCore_ok hu <;> rfl
 
 /-! ## which steps free -/
 
@@ -2657,7 +3321,7 @@ theorem runDtors_free {t : Nat} : ∀ {l : List Nat} {s s' : State}, KInv s → 
 
 /-- handles are freed by `unref` — explicit, or by the library key's destructor at thread end — and by nothing else -/
 theorem freeLog_frame {s s' : State} {e : Ev} (hs : step s e = .ok s')
-    (h1 : ∀ a h, e ≠ .unref a h) (h2 : ∀ t, e ≠ .threadEnd t) (h3 : ∀ a, e ≠ .createFail a) (h4 : ∀ t, e ≠ .currentFail t) : s'.freeLog = s.freeLog := by
+    (h1 : ∀ a h, e ≠ .unref a h) (h2 : ∀ t, e ≠ .threadEnd t) (h3 : ∀ a, e ≠ .createFail a) (h4 : ∀ t, e ≠ .currentFail t) (h5 : ∀ t h, e ≠ .retUnstored t h) : s'.freeLog = s.freeLog := by
   cases e with
   | spawn => have := spawn_ok hs; subst this; rfl
   | createBegin a j n => obtain ⟨_, _, rfl⟩ := createBegin_ok hs; rfl
@@ -2684,6 +3348,9 @@ theorem freeLog_frame {s s' : State} {e : Ev} (hs : step s e = .ok s')
   | joinFail a h => obtain ⟨_, _, _, _, _, rfl⟩ := joinFail_ok hs; rfl
   | tlsFail t' k' g => obtain ⟨_, _, _, _, _, rfl⟩ := tlsFail_ok hs; rfl
   | currentFail t' => exact absurd rfl (h4 t')
+  | storeFail t' k' r' => obtain ⟨n, _, _, _, _, _, rfl⟩ := storeFail_ok hs; rfl
+  | startUnstored t' => obtain ⟨_, _, _, _, _, _, _, rfl⟩ := startUnstored_ok hs; rfl
+  | retUnstored t' h' => exact absurd rfl (h5 t' h')
 
 
 /-! ## executable check of the discipline (for the non-vacuity examples) -/
@@ -2825,6 +3492,11 @@ theorem NInv.step {s s' : State} {e : Ev} (h : NInv s) (hk : KInv s) (hs : step 
   | joinFail a h' => obtain ⟨_, _, _, _, _, rfl⟩ := joinFail_ok hs; exact h.frame rfl rfl rfl rfl
   | tlsFail t' k g => obtain ⟨_, _, _, _, _, rfl⟩ := tlsFail_ok hs; exact h.frame rfl rfl rfl rfl
   | currentFail t' => obtain ⟨_, _, rfl⟩ := currentFail_ok hs; exact h.frame rfl rfl rfl rfl
+  | startUnstored t' => obtain ⟨_, _, _, _, _, _, _, rfl⟩ := startUnstored_ok hs; exact h.frame rfl rfl rfl rfl
+  | storeFail t' k r => obtain ⟨n, _, _, _, _, _, rfl⟩ := storeFail_ok hs; exact h.frame rfl rfl rfl rfl
+  | retUnstored t' h' =>
+    obtain ⟨_, _, s1, hu, rfl⟩ := retUnstored_ok hs
+    obtain ⟨_, ⟨_, rfl⟩ | ⟨_, rfl⟩⟩ := unrefCore_ok hu <;> exact h.frame rfl rfl rfl rfl
 
 theorem Reach.ninv {s : State} (h : Reach s) : NInv s := by
   induction h with
